@@ -22,8 +22,11 @@ def _under(p, d):
 
 def classify(c):
     job = json.loads(c["job"]) if isinstance(c["job"], str) else c["job"]
-    ops = _ops(job)
     kind = c["kind"]
+    if c["property"] == "C09" and (job.get("cfg") or {}).get("backend") == "mock":
+        # cloudsync/tests/fixtures/mock_storage.py is part of the (unedited) test suite
+        return "G5-mockstorage-fixture"
+    ops = _ops(job)
     opts = job.get("opts") or {}
     if opts.get("resolver") == "merged_keep" and kind == "noquiesce":
         # resolver answers (merged data, keep=True): both originals are renamed to .conflicted and the merged file is
